@@ -65,7 +65,7 @@ def assigned_names(stmts):
 
         def visit_Call(self, n):
             f = n.func
-            if isinstance(f, ast.Attribute) and f.attr in ('append', 'extend', 'pop', 'popitem', 'setdefault',
+            if isinstance(f, ast.Attribute) and f.attr in ('append', 'add', 'extend', 'pop', 'popitem', 'setdefault',
                                                            'update', 'remove', 'clear', 'add', 'discard', 'insert'):
                 tgt(f.value)
             self.generic_visit(n)
@@ -273,7 +273,9 @@ def run_loop(eng, s, fr, anchor, spec, idxname, body_guard, bind, n, after_exit)
             cur = fr.lookup(name)
             if isinstance(cur, V):
                 if cur.t is None:
-                    continue
+                    # an untyped empty literal that the loop mutates: its element type must come from the sidecar
+                    raise Unsupported('loop %s mutates %s, an empty literal without a declared type (contract `locals`)'
+                                      % (anchor, name))
                 owner = fr
                 while owner is not None and name not in owner.vars:
                     owner = owner.parent
